@@ -43,3 +43,151 @@ Theorem C09_bfs_prefix :
   callback_trace o = seq 1 (length (callback_trace o)) /\ (length (callback_trace o) <= D - 1)%nat.
 Proof. exact bfs_prefix. Qed.
 Print Assumptions C09_bfs_prefix.
+
+From V Require Import Base Tensor Graph GraphProofs GraphImpl Hash Def Paths BfsStep Bfs BfsRun BfsProofs PathsProofs Mitm MitmProofs PathRun MitmFind Interactive InteractiveBetween InstPerm InstSmall InstBfs InstPaths.
+
+(* END TO END for impl_of d: the documented prefix with only NoColl left *)
+Theorem C09_perm_prefix :
+  forall (d : gdesc) (cfg : bfs_cfg),
+         wf_perm_desc d ->
+         flag_sound d ->
+         NoCollOn (impl_of d) (Ustates d) ->
+         1 <= batch_size cfg ->
+         forall starts : list state,
+         (forall s : state, In s starts -> Ustates d s) ->
+         starts <> [] ->
+         forall o : bfs_out,
+         bfs (impl_of d) cfg starts = Ok o ->
+         let L := fun i : nat => layer state st_eq_dec (acts (impl_of d)) starts i in
+         let D := length (sizes o) in
+         (1 <= D)%nat /\
+         sizes o = map (fun i : nat => length (L i)) (seq 0 D) /\
+         (forall i : nat, (i < D)%nat -> L i <> []) /\
+         (D - 1 <= N.to_nat (max_diameter cfg))%nat /\
+         (completed o = true -> L D = []) /\
+         (completed o = false ->
+          (D - 1)%nat = N.to_nat (max_diameter cfg) \/
+          max_explore cfg <= Z.of_nat (length (L (D - 1)%nat)) \/
+          (exists (f : nat -> list state -> list Z -> bool) (l : list state) 
+           (lh : list Z), stop cfg = Some f /\ f (D - 1)%nat l lh = true /\ set_eq l (L (D - 1)%nat))) /\
+         (forall j : nat,
+          (1 <= j)%nat -> (j < D - 1)%nat -> Z.of_nat (length (L j)) < max_explore cfg) /\
+         (forall (k : nat) (l : list state),
+          In (k, l) (layers o) -> (k < D)%nat /\ NoDup l /\ set_eq l (L k)) /\
+         NoDup (map fst (layers o)) /\
+         (forall k : nat,
+          (k < D)%nat ->
+          (exists l : list state, In (k, l) (layers o)) <->
+          k = 0%nat \/
+          Z.of_nat (length (L k)) <= max_store cfg \/ completed o = true /\ k = (D - 1)%nat) /\
+         (ret_hashes cfg = false -> layer_hashes o = []) /\
+         (ret_hashes cfg = true ->
+          length (layer_hashes o) = D /\
+          (forall i : nat,
+           (i < D)%nat ->
+           let hs := nth i (layer_hashes o) [] in
+           StronglySorted Z.lt hs /\
+           length hs = length (L i) /\
+           (forall h : Z, In h hs <-> (exists t : state, In t (L i) /\ hashf (impl_of d) t = h)))) /\
+         callback_trace o = seq 1 (length (callback_trace o)) /\
+         (length (callback_trace o) <= D - 1)%nat.
+Proof. exact @bfs_perm_prefix. Qed.
+Print Assumptions C09_perm_prefix.
+
+(* single-word identity hash: no hash hypothesis *)
+Theorem C09_perm_prefix_unconditional :
+  forall (d : gdesc) (cfg : bfs_cfg),
+         wf_perm_desc d ->
+         flag_sound d ->
+         g_hasher d = HIdentity ->
+         single_word d ->
+         1 <= batch_size cfg ->
+         forall starts : list state,
+         (forall s : state, In s starts -> Ustates d s) ->
+         starts <> [] ->
+         forall o : bfs_out,
+         bfs (impl_of d) cfg starts = Ok o ->
+         let L := fun i : nat => layer state st_eq_dec (acts (impl_of d)) starts i in
+         let D := length (sizes o) in
+         (1 <= D)%nat /\
+         sizes o = map (fun i : nat => length (L i)) (seq 0 D) /\
+         (forall i : nat, (i < D)%nat -> L i <> []) /\
+         (D - 1 <= N.to_nat (max_diameter cfg))%nat /\
+         (completed o = true -> L D = []) /\
+         (completed o = false ->
+          (D - 1)%nat = N.to_nat (max_diameter cfg) \/
+          max_explore cfg <= Z.of_nat (length (L (D - 1)%nat)) \/
+          (exists (f : nat -> list state -> list Z -> bool) (l : list state) 
+           (lh : list Z), stop cfg = Some f /\ f (D - 1)%nat l lh = true /\ set_eq l (L (D - 1)%nat))) /\
+         (forall j : nat,
+          (1 <= j)%nat -> (j < D - 1)%nat -> Z.of_nat (length (L j)) < max_explore cfg) /\
+         (forall (k : nat) (l : list state),
+          In (k, l) (layers o) -> (k < D)%nat /\ NoDup l /\ set_eq l (L k)) /\
+         NoDup (map fst (layers o)) /\
+         (forall k : nat,
+          (k < D)%nat ->
+          (exists l : list state, In (k, l) (layers o)) <->
+          k = 0%nat \/
+          Z.of_nat (length (L k)) <= max_store cfg \/ completed o = true /\ k = (D - 1)%nat) /\
+         (ret_hashes cfg = false -> layer_hashes o = []) /\
+         (ret_hashes cfg = true ->
+          length (layer_hashes o) = D /\
+          (forall i : nat,
+           (i < D)%nat ->
+           let hs := nth i (layer_hashes o) [] in
+           StronglySorted Z.lt hs /\
+           length hs = length (L i) /\
+           (forall h : Z, In h hs <-> (exists t : state, In t (L i) /\ hashf (impl_of d) t = h)))) /\
+         callback_trace o = seq 1 (length (callback_trace o)) /\
+         (length (callback_trace o) <= D - 1)%nat.
+Proof. exact @bfs_perm_identity_hash_prefix_unconditional. Qed.
+Print Assumptions C09_perm_prefix_unconditional.
+
+From V Require Import Base Tensor Graph GraphProofs GraphImpl Hash Matrix MatrixProofs Def Paths BfsStep Bfs BfsRun BfsProofs PathsProofs Mitm MitmProofs PathRun MitmFind InstShared InstMatrix InstMatrixAlgebra InstMatrixBfs.
+
+(* END TO END for matrix graphs: the documented prefix with only NoColl left *)
+Theorem C09_matrix_prefix :
+  forall (d : gdesc) (cfg : bfs_cfg),
+         wf_matrix_desc d = true ->
+         NoCollMat d ->
+         1 <= batch_size cfg ->
+         forall starts : list state,
+         (forall s : state, In s starts -> Umat d s) ->
+         starts <> [] ->
+         forall o : bfs_out,
+         bfs (impl_of d) cfg starts = Ok o ->
+         let L := fun i : nat => layer state st_eq_dec (acts (impl_of d)) starts i in
+         let D := length (sizes o) in
+         (1 <= D)%nat /\
+         sizes o = map (fun i : nat => length (L i)) (seq 0 D) /\
+         (forall i : nat, (i < D)%nat -> L i <> []) /\
+         (D - 1 <= N.to_nat (max_diameter cfg))%nat /\
+         (completed o = true -> L D = []) /\
+         (completed o = false ->
+          (D - 1)%nat = N.to_nat (max_diameter cfg) \/
+          max_explore cfg <= Z.of_nat (length (L (D - 1)%nat)) \/
+          (exists (f : nat -> list state -> list Z -> bool) (l : list state) 
+           (lh : list Z), stop cfg = Some f /\ f (D - 1)%nat l lh = true /\ set_eq l (L (D - 1)%nat))) /\
+         (forall j : nat,
+          (1 <= j)%nat -> (j < D - 1)%nat -> Z.of_nat (length (L j)) < max_explore cfg) /\
+         (forall (k : nat) (l : list state),
+          In (k, l) (layers o) -> (k < D)%nat /\ NoDup l /\ set_eq l (L k)) /\
+         NoDup (map fst (layers o)) /\
+         (forall k : nat,
+          (k < D)%nat ->
+          (exists l : list state, In (k, l) (layers o)) <->
+          k = 0%nat \/
+          Z.of_nat (length (L k)) <= max_store cfg \/ completed o = true /\ k = (D - 1)%nat) /\
+         (ret_hashes cfg = false -> layer_hashes o = []) /\
+         (ret_hashes cfg = true ->
+          length (layer_hashes o) = D /\
+          (forall i : nat,
+           (i < D)%nat ->
+           let hs := nth i (layer_hashes o) [] in
+           StronglySorted Z.lt hs /\
+           length hs = length (L i) /\
+           (forall h : Z, In h hs <-> (exists t : state, In t (L i) /\ hashf (impl_of d) t = h)))) /\
+         callback_trace o = seq 1 (length (callback_trace o)) /\
+         (length (callback_trace o) <= D - 1)%nat.
+Proof. exact @matrix_bfs_prefix. Qed.
+Print Assumptions C09_matrix_prefix.
